@@ -131,7 +131,13 @@ func main() {
 		sv := newSolver(filepath.Join(*verif, ".cache", "dev"), to, *tier == "thorough")
 		outs := runObligations(p, sv, results, "", *workers)
 		bad := 0
+		oor := map[string]int{}
 		for _, o := range outs {
+			if o.Status == "out-of-reach" {
+				oor[o.Func.Name]++
+				bad++
+				continue
+			}
 			mark := "ok  "
 			if o.Status != "discharged" && o.Status != "cover-ok" {
 				mark = "FAIL"
@@ -144,8 +150,13 @@ func main() {
 			}
 		}
 		for _, r := range results {
-			for _, u := range r.Unsupported {
-				fmt.Println("UNSUPPORTED", r.Name, u)
+			if oor[r.Name] > 0 {
+				fmt.Printf("FAIL %s: %d obligations out of reach\n", r.Name, oor[r.Name])
+			}
+			for i, u := range r.Unsupported {
+				if i < 6 {
+					fmt.Println("  UNSUPPORTED", r.Name, truncate(u, 300))
+				}
 			}
 		}
 		fmt.Printf("%d obligations, %d failed, %.1fs\n", len(outs), bad, time.Since(start).Seconds())
